@@ -168,10 +168,10 @@ CHECKS = {
     'C14': dict(
         text='Bounded solver verdict. EpsAlg (real class on symbolic terms): value after term m equals the independently built '
              'Hankel-determinant Shanks entry, and a limit plus k geometric transients is recovered from 2k+1 terms for all '
-             'parameters (k<=2, 3 thorough). Dea (real class): one __call__ from an arbitrary symbolic table for every control '
+             'parameters (k<=2). Dea (real class): one __call__ from an arbitrary symbolic table for every control '
              'state (n, nres class), all comparison outcomes explored with z3 deciding feasibility; per path index safety, no '
              'exception, every divisor non-zero, abserr>=5*eps*|result|; EpsAlg guard threshold <= 1e-30; exhaustive search of the finite control graph gives "any length" for limexp in '
-             '{3,5,7} (odd <=13 thorough); outside the guards the value after term m is the Shanks entry e_k(S_(m-2k)) of the last 2k+1 terms for ALL terms (real Dea on symbolic terms, control path of a rational shadow run; limexp 3, 5 (7 thorough), also after the table is full); first terms agree with dea3.',
+             '{3,5,7} (odd <=9 thorough); outside the guards the value after term m is the Shanks entry e_k(S_(m-2k)) of the last 2k+1 terms for ALL terms (real Dea on symbolic terms, control path of a rational shadow run; limexp 3, 5, also after the table is full); first terms agree with dea3.',
         note='Trusted: z3; table contents arbitrary at every call (over-approximation of histories, sound for absence of '
              'violations); reciprocal of symbolic differences uninterpreted; abstract counterexamples are reported only when a '
              'sequence family realises them on the real class. Known finding (table overrun after convergence) listed.',
